@@ -84,7 +84,17 @@ class GenElab:
         nclasses = 0
         snap_pool = []
         n = rng.choice([2, 3, 4, 5, 6])
+        plain_members = []      # (class index, name) of plain methods that a class declares itself
+        self.has_sub = set()
         for _ in range(n):
+            leaves = [(j, nm) for j, nm in plain_members if j not in self.has_sub]
+            if leaves and rng.random() < 0.12:
+                # K.f = decorator(K.f) after the class was created (a class without sub-classes so far: the meta-class
+                # merges the contracts of the bases when a sub-class is created, not later)
+                j, name = rng.choice(leaves)
+                ops.append({"op": "redecorate", "cls": j, "name": name,
+                            "deco": ["ensure" if rng.random() < 0.7 else "require", self.contract(), True]})
+                continue
             if rng.random() < 0.25:
                 ops.append({"op": "func", "name": "fn%d" % len(ops), "async": rng.random() < 0.2, "kind": "plain",
                             "sig": self.sig("plain"), "decos": self.decos("plain")})
@@ -96,6 +106,7 @@ class GenElab:
                     b2 = rng.randrange(nclasses)
                     if b2 not in bases:
                         bases.append(b2)
+            self.has_sub.update(bases)
             dbc = rng.random() < 0.85 if not bases else rng.random() < 0.1
             members = []
             used = set()
@@ -140,6 +151,9 @@ class GenElab:
                                  "enabled": rng.random() > 0.1, "invalid": invalid})
             ops.append({"op": "class", "bases": bases, "dbc": dbc, "members": members, "invs": invs})
             self.defined[nclasses] = sorted(set([m["name"] for m in members] + inherited))
+            plain_members += [(nclasses, m["name"]) for m in members
+                              if m["kind"] == "plain" and m["name"] in ("f", "g")
+                              and not any(d[0] == "invalid" for d in m["decos"])]
             nclasses += 1
         return {"ops": ops, "names": NAMES}
 
@@ -166,7 +180,7 @@ class GenElab:
         acc = lambda kind, decos: self._with(self.member("p", kind), decos)   # noqa: E731
         fn = lambda name, kind, decos: self._with(self.member(name, kind), decos)   # noqa: E731
         shape = rng.choice(["prop-missing-accessor", "prop-accessor-of-other-base", "inherited-static", "diamond-posts",
-                            "invariant-events", "special-of-second-base"])
+                            "invariant-events", "special-of-second-base", "late-decoration"])
         order = rng.choice([[0, 1], [1, 0]])
         if shape == "prop-missing-accessor":
             # one base shows the property without the accessor, the other one with it and with contracts
@@ -197,6 +211,12 @@ class GenElab:
             ops = [self._cls([], [fn("f", "plain", [])], invs=[self._inv(ev())]),
                    self._cls([0], [fn("g", "plain", [])], invs=[self._inv(ev()) for _ in range(rng.choice([1, 2]))]),
                    self._cls([1], rng.choice([[], [fn("__setattr__", "plain", [])]]), invs=rng.choice([[], [self._inv(ev())]]))]
+        elif shape == "late-decoration":
+            # a member of a sub-class gets one more contract after the classes exist
+            ops = [self._cls([], [fn("f", "plain", rng.choice([[req()], [req(), ens()], [ens()]]))]),
+                   self._cls([0], [fn("f", "plain", rng.choice([[], [ens()]]))]),
+                   self._cls([0], rng.choice([[], [fn("f", "plain", [])]])),
+                   {"op": "redecorate", "cls": 1, "name": "f", "deco": rng.choice([req(), ens()])}]
         else:
             # a class that lacks a special method before the class that defines it, in the bases of a third one
             nm = rng.choice(["__setattr__", "__eq__"])
@@ -285,6 +305,12 @@ def py_member(m, ind, lines_out):
 def py_op(i, op, class_names):
     """Source text of one definition (executed on its own so that its exception is observed)."""
     L = []
+    if op["op"] == "redecorate":
+        helpers = []
+        text = py_deco(op["deco"], helpers, "")
+        return "\n".join([h.lstrip() for h in helpers]
+                         + ["%s.%s = %s(%s.%s)" % (class_names[op["cls"]], op["name"], text[1:], class_names[op["cls"]],
+                                                   op["name"])]) + "\n"
     if op["op"] == "func":
         m = dict(op)
         m["toplevel"] = True
@@ -363,6 +389,8 @@ def cq_member(m, toplevel=False):
 
 
 def cq_op(op):
+    if op["op"] == "redecorate":
+        return "DefRedecorate %d%%nat %s (%s)" % (op["cls"], C.cq_str(op["name"]), cq_deco(op["deco"]))
     if op["op"] == "func":
         return "DefFunction %s" % cq_member(op, toplevel=True)
     invs = C.cq_list(["{| id_contract := %s; id_check_on := %s; id_enabled := %s; id_invalid := %s |}" % (
